@@ -8,7 +8,7 @@ drv_server ops (not verified; exercised on every line):
 
 tokens:  c<k>:g:<j> connect, the accepted socket getting the descriptor number client j's closed socket had · m<k> a call
 that arms the service instance's on_disconnect to block · h<k> release that on_disconnect (any server kind) ·
-c<k>:<g|b|s|r> connect (good / bad / no credentials yet / connection reset at once) · k<k>:<g|b> the late
+c<k>:<g|b|s|r|e> connect (good / bad / no credentials yet / connection reset at once / e: see parseCred) · y<k>:<n> see parseTok · k<k>:<g|b> the late
 credentials of a client that connected with s · w<k> a call asking the service which credentials and peer address its
 connection carries (to the model: a call) · d<k>:<n> release the object of the n-th lend · · p<k> call · u<k>:<n> a call that passes the n-th kind of by-reference argument, which the service uses through
 callbacks (to the model: a call) · x<k>:<n>:<m> a hostile but well-formed request naming a foreign / builtin type and answering
@@ -71,6 +71,9 @@ inductive Tok where
 
 def parseCred : List Char → Option Cred
   | ['g'] => some .good | ['b'] => some .bad | ['s'] => some .silent | ['r'] => some .reset
+  -- good credentials, but the client answers the request the service's on_connect makes (harness option "occ") with an
+  -- exception reply naming SystemExit: the connection is rejected while it is being admitted, like a failed authentication
+  | ['e'] => some .bad
   | _ => none
 
 def parseTok (tok : String) : Option Tok :=
@@ -93,6 +96,11 @@ def parseTok (tok : String) : Option Tok :=
     | k :: _ => (parseNatChars k).map (fun k => .op (.call k .ping))
     | _ => none
   | 'w' :: cs => (parseNatChars cs).map (fun k => .op (.call k .ping))
+  -- an unsolicited REPLY carrying a by-reference object plus a pre-sent EXCEPTION reply (naming SystemExit, KeyboardInterrupt,
+  -- ...) to the INSPECT the server then makes: the BaseException leaves serve(): to the model a frame that raises
+  | 'y' :: cs => match splitColon cs with
+    | k :: _ => (parseNatChars k).map (fun k => .op (.raw k [.bad]))
+    | _ => none
   | 'x' :: cs => match splitColon cs with
     | k :: _ => (parseNatChars k).map (fun k => .op (.raw k [.handled]))
     | _ => none
